@@ -104,6 +104,9 @@ func majEnumerate(s *Shard, prop string, fn func(c *Case)) {
 						for _, cc := range currents {
 							cfg := majCfg{N: g.n, Vals: vals, Types: types, Weights: w, Policy: pol, Current: cc}
 							fn(&Case{Prop: prop, Kind: "majority", Req: majRequest(cfg)})
+							if g.n == 3 && g.m == 2 && len(g.levels) == 3 && g.levels[2] == 2 {
+								fn(&Case{Prop: prop, Kind: "majority", Req: renameIDs(majRequest(cfg), untidyIDs)}) // untidy ids
+							}
 							if g.n >= 3 && g.n <= 4 && g.m == 2 && len(g.levels) == 3 && g.levels[2] == 2 {
 								cfg.Reverse = true // choseToMake listed in descending id order
 								fn(&Case{Prop: prop, Kind: "majority", Req: majRequest(cfg)})
